@@ -95,6 +95,21 @@ RAW_PARAM_PROGRAMS = [
 ]
 
 
+# `Self` in the user-written pieces of an item that derives `Eq` (the hidden `Eq` assertion must be a place where `Self` means
+# the type): a field type, a key expression, a bound, the where-clause
+SELF_WITH_EQ_PROGRAMS = [
+    ('#[derive_ex(Eq, PartialEq)] struct X<T> { v: T, w: PhantomData<(T, Self)> }',
+     '#[::derive_ex::derive_ex(Eq, PartialEq)]\npub struct X<T> { pub v: T, pub w: PhantomData<(T, Self)> }\npub fn run() {}'),
+    ('#[derive(Ex)] #[derive_ex(Eq, PartialEq, Hash)] struct X<T>(#[eq(key = Self::k(&$))] T);  impl<T> X<T> { fn k(_: &T) -> u8 }',
+     '#[derive(::derive_ex::Ex)]\n#[derive_ex(Eq, PartialEq, Hash)]\npub struct X<T>(#[eq(key = Self::k(&$))] pub T);\nimpl<T> X<T> { fn k(_: &T) -> u8 { 0 } }\npub fn run() {}'),
+    ('#[derive_ex(Eq, PartialEq, bound(T: Tr<Self>, ..))] enum X<T> { A(T), B }',
+     '#[::derive_ex::derive_ex(Eq, PartialEq, bound(T: Tr<Self>, ..))]\npub enum X<T> { A(T), B }\npub fn run() {}'),
+    ('#[derive_ex(Eq, PartialEq, Ord, PartialOrd)] enum X<T> where Self: Sized { A(#[ord(by = Self::c)] T), B { x: Option<Box<Self>> } }',
+     '#[::derive_ex::derive_ex(Eq, PartialEq, Ord, PartialOrd)]\npub enum X<T> where Self: Sized { A(#[ord(by = Self::c)] T), B { x: Option<Box<Self>> } }\n'
+     'impl<T> X<T> { fn c(_: &T, _: &T) -> Ordering { Ordering::Equal } }\npub fn run() {}'),
+]
+
+
 # KNOWN FINDING (known_findings.json): the generic parameters of the item are declared again, with the user's spans, by every
 # generated impl - outside the scope of an `#[allow(..)]` written on the item, so a parameter with an unconventional name
 # draws the naming lint from derive_ex's impls although the item silences it (the standard derive draws none)
@@ -333,7 +348,7 @@ class C20(Prop):
         # operators derived from an `impl` whose operand is a reference with an explicit, load-bearing lifetime
         for k, (text, src) in enumerate(IMPL_PROGRAMS):
             mods.append(l2.Module(4 * 10 ** 6 + k, src, _Lit(text)))
-        for k, (text, src) in enumerate(RAW_PARAM_PROGRAMS + PARAM_NAME_LINT_PROGRAMS):
+        for k, (text, src) in enumerate(RAW_PARAM_PROGRAMS + PARAM_NAME_LINT_PROGRAMS + SELF_WITH_EQ_PROGRAMS):
             mods.append(l2.Module(5 * 10 ** 6 + k, src, _Lit(text)))
         nb = max(1, min(R.NPROC, len(mods) // 40 + 1))
         batches = [('c20_%d' % k, mods[k::nb]) for k in range(nb)]
